@@ -3,7 +3,8 @@
 Runs the exhaustive configurations of spec/Workers.tla (the per-chunk worker
 with every admissible arithmetic), spec/Pipeline.tla (every chunking and
 completion order, flag discipline, missing pairs, ids) and
-spec/FilterSoundness.tla (every arrangement of two token sets), plus the
+spec/FilterSoundness.tla (every arrangement of two token sets) and
+spec/Matcher.tla (cache switch, every chunking), plus the
 deliberately sabotaged configurations that must violate an invariant (so the
 invariants are known not to be vacuous).  A failure here is a defect of the
 specification, i.e. a machinery failure, never a violation of the code.
@@ -25,6 +26,8 @@ def jobs_for(tier):
         jobs.append(('Workers', os.path.basename(path)[:-4], 'Complete'))
     jobs.append(('Pipeline', 'Pipeline_sab_loseboundary', 'JoinResult'))
     jobs.append(('Pipeline', 'Pipeline_sab_norestore', 'FlagRestored'))
+    jobs.append(('Matcher', 'Matcher_%s' % t, None))
+    jobs.append(('Matcher', 'Matcher_sab_zip', 'Result'))
     jobs.append(('FilterSoundness', 'FilterSoundness_%s_safe' % t, None))
     jobs.append(('FilterSoundness', 'FilterSoundness_%s_suffix' % t, None))
     jobs.append(('FilterSoundness', 'FilterSoundness_suffixA', 'SuffixSafe'))
